@@ -21,6 +21,7 @@ mod generated {
     pub mod consts;
 }
 mod rng;
+mod sm;
 
 use common::*;
 use std::io::{BufRead, Write};
@@ -28,6 +29,7 @@ use std::io::{BufRead, Write};
 /// Runs the implementation for one input vector.
 pub fn exec(tag: i64, inp: &[i64]) -> Vec<i64> {
     match tag {
+        10 | 11 | 12 | 13 | 20 | 30 | 60 | 61 | 62 => sm::exec(tag, inp),
         70 | 71 | 80 => cc14::exec(tag, inp),
         90 | 100 | 101 | 110 => nrpn::exec(tag, inp),
         #[cfg(feature = "cfg_std")]
@@ -40,6 +42,10 @@ pub fn exec(tag: i64, inp: &[i64]) -> Vec<i64> {
 
 fn gen(prop: &str, tier: Tier, seed: u64, em: &mut Emitter) {
     match prop {
+        "C01" => sm::gen_c01(tier, seed, em),
+        "C02" => sm::gen_c02(tier, seed, em),
+        "C03" => sm::gen_c03(tier, seed, em),
+        "C06" => sm::gen_c06(tier, seed, em),
         "C07" => cc14::gen_c07(tier, seed, em),
         "C08" => cc14::gen_c08(tier, seed, em),
         "C09" => nrpn::gen_c09(tier, seed, em),
